@@ -64,7 +64,7 @@ def obligations(tier):
     q = tier == 'quick'
     return [
         ob_cb_repcode_choice(),
-        Ob('table_write_then_read', 'ch', '0..3 rows over 3 names (duplicates), 1..2 value columns, 16 cell kinds, units on/off, one or several physical records',
+        Ob('table_write_then_read', 'ch', '0..3 rows (text or numeric row names) over 7 names (duplicates), 1..2 value columns, 16 cell kinds, units on/off, one or several physical records',
            ['LIS.core.LogiRec.LrTableWrite.__init__', 'LrTable.genLisBytes/startNewRow/addDatumBlock/_indexLastRowOrDiscard', 'CbEngValWrite', 'CbEngVal.lisBytes', 'LrTableRead.__init__',
             'CbEngValRead', 'TableRow', 'LIS.core.RepCode.writeBytes/readRepCode', 'LIS.core.EngVal.EngValRc'],
            harness='C08_tables', func='table_roundtrip_q' if q else 'table_roundtrip', timeout=280 if q else 3000, parts=16),
